@@ -4,7 +4,15 @@ from props_common import TRUSTED_COMMON
 PROP = {
     "lean_targets": ["MultiProofs.C08"],
     "lean_module": "MultiProofs.C08",
-    "theorems": ["Multi.C08.stub"],
+    "theorems": [
+        "Multi.C08.inv_init",
+        "Multi.C08.inv_step",
+        "Multi.C08.inv_history",
+        "Multi.C08.all_dead_nothing_outstanding",
+        "Multi.C08.discipline_checked",
+        "Multi.C08.trivial_no_write",
+        "Multi.Ledger.run_spec",
+    ],
     "harnesses": [lc.ledger_harness("ledger", ["hist", "trivial"], 16000, 160000, ["hist20", "trivial20"])],
     "hooks": ["oracle"],
     "trusted_base": TRUSTED_COMMON + lc.TRUSTED_LEDGER,
